@@ -1120,6 +1120,14 @@ hwloc__xml_import_object(hwloc_topology_t topology,
     }
   }
 
+  if (!ignored && obj->type == HWLOC_OBJ_MEMCACHE && !obj->memory_first_child) {
+    /* a memory-side cache is always above a NUMA node, exporters and the checker rely on it */
+    if (hwloc__xml_verbose())
+      fprintf(stderr, "%s: invalid MemCache object without memory child\n",
+              state->global->msgprefix);
+    goto error;
+  }
+
   return state->global->close_tag(state);
 
  error_with_object:
